@@ -45,7 +45,7 @@ def gen_call(ctx: Ctx, P, for_mean=False):
     a = rng.random()
     if a < 0.45:
         w = rng.sample(range(-6, 9), m) if m <= 15 else [rng.randint(-6, 8) for _ in range(m)]
-        agg = ("const", w)
+        agg = ("const", w) if rng.random() < 0.8 else ("sub", w)       # "sub": a user subclass of Constant overriding forward
     elif a < 0.6:
         agg = ("sum",)
     elif a < 0.7 and m in (1, 2, 4, 8, 16):
